@@ -45,6 +45,15 @@ fn main() {
             };
             std::process::exit(engine::run_property(def, tier, seed, &verif_dir, only.as_deref()));
         }
+        Some("child") => {
+            let id = args.get(2).cloned().unwrap_or_default();
+            let sub = args.get(3).cloned().unwrap_or_default();
+            let tier = if args.get(4).map(|s| s.as_str()) == Some("thorough") { engine::Tier::Thorough } else { engine::Tier::Quick };
+            let seed: u64 = args.get(5).and_then(|s| s.parse().ok()).unwrap_or(1);
+            let verif_dir = std::env::var("VERIF_DIR").unwrap_or_else(|_| "/verif".into());
+            let Some(def) = props::def(&id) else { std::process::exit(2) };
+            std::process::exit(engine::child_main(def, &sub, tier, seed, &verif_dir));
+        }
         Some("replay") => {
             let path = args.get(2).cloned().unwrap_or_default();
             let verif_dir = std::env::var("VERIF_DIR").unwrap_or_else(|_| "/verif".into());
